@@ -45,6 +45,14 @@ def keyer(t):
 def message_level(rep, wd, tier, seed, own, prefix):
     jobs = plan(tier, seed)
     outs = isocheck._pool(mutants.drive, jobs)
+    # one base message and all its mutants per thread, four threads at once (binary and hex bitmaps, both code pages)
+    gen = ('gen', 900 + seed)
+    tjobs = [(seed + 31, cfgspec, codec, hexb, 'quick', lo, lo + 1, 8, 0)
+             for lo, (cfgspec, codec, hexb) in enumerate([(('pkg',), 'latin_1', False), (gen, 'cp500', False), (('pkg',), 'latin_1', True),
+                                                          (gen, 'latin_1', False), (('pkg',), 'cp500', False), (gen, 'cp500', True),
+                                                          (('pkg',), 'cp500', True), (gen, 'latin_1', True)])]
+    jobs = jobs + tjobs
+    outs = outs + isocheck.mark_threaded(isocheck.threaded('harness.mutants', 'drive', tjobs, procs=2))
     groups = {}
     for j, o in zip(jobs, outs):
         g = groups.setdefault((j[1], j[2]), [])
